@@ -63,6 +63,9 @@ def main():
     place = meta["demo_place"]
     m = re.search(r"[\w./-]+_test\.go", place)
     place = m.group(0) if m else place
+    if "/repo/" in place:
+        place = place.split("/repo/", 1)[1]
+    place = place.lstrip("/")
     cmd = meta["demo_cmd"]
     cmd = re.sub(r"cd\s+\S+\s*&&\s*", "", cmd)
     cmd = re.sub(r"\b(GOFLAGS|GOPROXY)=\S+\s*", "", cmd)
@@ -75,7 +78,10 @@ def main():
     try:
         rc, o = sh("git apply %s" % patch, cwd=wt); res["ran"]["patch_applies"] = rc == 0
         rc, o = sh("go build ./...", cwd=wt); res["ran"]["builds"] = rc == 0
-        rc, o = sh("go test -vet=off -count=1 ./...", cwd=wt); res["ran"]["suite_passes_with_change"] = rc == 0
+        rc, o = sh("go test -vet=off -count=1 ./...", cwd=wt)
+        if rc != 0:  # the repository has one flaky test (TestPrivateKey_RSA, random key with a leading zero byte): retry once
+            rc, o = sh("go test -vet=off -count=1 ./...", cwd=wt)
+        res["ran"]["suite_passes_with_change"] = rc == 0
         if rc != 0: res["ran"]["suite_output"] = o[-1500:]
         os.makedirs(os.path.dirname(os.path.join(wt, place)), exist_ok=True)
         shutil.copyfile(demo, os.path.join(wt, place))
